@@ -4,8 +4,25 @@
    mapstructure / ozzo), tied to the code by the correspondence runs of harness/cmd/c15. *)
 From Coq Require Import List ZArith Bool String.
 Import ListNotations.
-From GU Require Import C15.Model C15.Proofs C15.ProofsNames C15.ProofsTop C15.ProofsValid.
+From GU Require Import C15.Gen C15.Model C15.Proofs C15.ProofsNames C15.ProofsTop C15.ProofsValid.
 Local Open Scope Z_scope.
+
+(* ---- the facts read off the source on this run satisfy what each theorem needs (by computation) ----
+   [gen_facts] (coq/C15/Gen.v) is regenerated from utils/config/*.go by translator-c15 on every run; the lemmas of
+   Proofs*.v hold for EVERY fact record satisfying the conditions named here, so an edit that changes a fact breaks
+   exactly the theorems below that depend on it. *)
+Lemma gen_link_facts : link_facts_ok gen_facts = true.              (* LoadFromEnvironment order, link guards *)
+Proof. vm_compute. reflexivity. Qed.
+Lemma gen_bind_facts : bind_facts_ok gen_facts.                     (* key / variable spelling, no prefix stripping, AutomaticEnv *)
+Proof. repeat split; vm_compute; reflexivity. Qed.
+Lemma gen_spelling_facts : kf gen_facts = expected_kf.
+Proof. vm_compute. reflexivity. Qed.
+Lemma gen_names_facts : nf gen_facts = expected_nf.                 (* flattenDefaultsMap, Determine… *)
+Proof. vm_compute. reflexivity. Qed.
+Lemma gen_valid_facts : valid_facts_ok gen_facts.                   (* ValidateEmbedded, RecordField, ozzo conversion *)
+Proof. repeat split; vm_compute; reflexivity. Qed.
+Lemma gen_empty_env_fact : l_allow_empty_env (lf gen_facts) = false.
+Proof. vm_compute. reflexivity. Qed.
 
 (* ---- precedence ---- *)
 (* For EVERY structure (any depth, any number of fields), every environment, file, set of bound flags and prefix
@@ -16,47 +33,53 @@ Local Open Scope Z_scope.
    arbitrary key list, viper.find, the spelling of flag keys and bound variables), not assumed. *)
 Theorem load_precedence : forall w sc k t d,
   NoDup (map fst (leaves [] sc)) -> In (k, (t, d)) (leaves [] sc) ->
-  is_flagkey k = false -> unshadowed w k ->
-  final_val fixed w sc k = Some (spec_val fixed w k d).
-Proof. exact load_precedence_fixed_l. Qed.
+  is_flagkey gen_facts k = false -> unshadowed gen_facts w k ->
+  final_val gen_facts w sc k = Some (spec_val gen_facts w k d).
+Proof. intros. apply load_precedence_fixed_l with (t := t); auto using gen_link_facts, gen_bind_facts. Qed.
 Print Assumptions load_precedence.
 
 (* [spec_val] spelled out, clause by clause, in the order of the property *)
 Theorem precedence_order : forall w k d,
-  let fl := lookup (flagkey fixed (w_prefix w) k) (bound_flags w) in
-  (forall t fd a, fl = Some (t, fd, Some a) -> spec_val fixed w k d = rep_flag t a) /\
+  let fl := lookup (flagkey gen_facts (w_prefix w) k) (bound_flags gen_facts w) in
+  (forall t fd a, fl = Some (t, fd, Some a) -> spec_val gen_facts w k d = rep_flag t a) /\
   (forall v, (forall t fd a, fl <> Some (t, fd, Some a)) ->
-             getenv w (autoenv (w_prefix w) k) = Some v -> spec_val fixed w k d = v) /\
-  (forall v, fl = None -> getenv w (autoenv (w_prefix w) k) = None ->
-             lookup k (file_cfg w) = Some v -> spec_val fixed w k d = v) /\
-  (fl = None -> getenv w (autoenv (w_prefix w) k) = None ->
-   lookup k (file_cfg w) = None -> spec_val fixed w k d = rep_default d) /\
+             autoget gen_facts w k = Some v -> spec_val gen_facts w k d = v) /\
+  (forall v, fl = None -> autoget gen_facts w k = None ->
+             lookup k (file_cfg w) = Some v -> spec_val gen_facts w k d = v) /\
+  (fl = None -> autoget gen_facts w k = None ->
+   lookup k (file_cfg w) = None -> spec_val gen_facts w k d = rep_default d) /\
   (forall t fd, fl = Some (t, fd, None) ->
-     getenv w (autoenv (w_prefix w) k) = None ->
+     autoget gen_facts w k = None ->
      let cv := match lookup k (file_cfg w) with Some v => v | None => rep_default d end in
-     is_empty cv = false -> spec_val fixed w k d = cv).
+     is_empty cv = false -> spec_val gen_facts w k d = cv).
 Proof.
   intros w k d fl. unfold fl. split; [|split; [|split; [|split]]].
   - intros; eapply spec_flag_wins; eauto.
   - intros; eapply spec_env_next; eauto.
   - intros; eapply spec_file_next; eauto.
   - intros; eapply spec_default_last; eauto.
-  - intros t fd H1 H2. apply (spec_unset_flag_does_not_outrank fixed w k d t fd H1 H2).
+  - intros t fd H1 H2. apply (spec_unset_flag_does_not_outrank gen_facts w k d t fd H1 H2).
 Qed.
 Print Assumptions precedence_order.
 
 (* the variable BindFlagToEnv binds for a flag is the one AutomaticEnv consults for the structure key the flag is linked
    to — for every prefix (empty included) and every spelling of the envVar argument *)
 Theorem bound_env_is_auto_env : forall w k ev,
-  flagkey_of_short (short_of ev (w_prefix w)) = flagkey fixed (w_prefix w) k ->
-  cleanse fixed (w_prefix w) (short_of ev (w_prefix w)) = autoenv (w_prefix w) k.
-Proof. exact bound_env_is_auto_env_l. Qed.
+  flagkey_of_short gen_facts (short_of gen_facts ev (w_prefix w)) = flagkey gen_facts (w_prefix w) k ->
+  cleanse gen_facts (w_prefix w) (short_of gen_facts ev (w_prefix w)) = autoenv gen_facts (w_prefix w) k.
+Proof. intros. apply bound_env_is_auto_env_l; auto; apply gen_bind_facts. Qed.
 Print Assumptions bound_env_is_auto_env.
 
 (* fields at the top level have no enclosing path: the shadowing side condition on the key is vacuous for them *)
-Theorem top_level_never_shadowed : forall w k, nodot k = true -> env_shadow w k = false.
-Proof. exact top_level_unshadowed. Qed.
+Theorem top_level_never_shadowed : forall w k, nodot k = true -> env_shadow gen_facts w k = false.
+Proof. intros. now apply top_level_unshadowed. Qed.
 Print Assumptions top_level_never_shadowed.
+
+(* an environment variable that is set to the empty string counts as not set (setEnvOptions: AllowEmptyEnv(false)) *)
+Theorem empty_variable_is_unset : forall w name,
+  lookup name (w_environ w) = Some (VStr []) -> getenv gen_facts w name = None.
+Proof. intros. apply empty_env_unset_l; auto using gen_empty_env_fact. Qed.
+Print Assumptions empty_variable_is_unset.
 
 (* D23 — the code BEFORE the first repair (flags linked before the file is merged) does not have the property:
    empty supplied default, value in the file, bound flag not set with a non-empty default: the flag default wins. *)
@@ -66,11 +89,11 @@ Definition d23_schema : schema := Node VOwnOnly [(str_of "Name", str_of "name", 
 
 Theorem load_precedence_before_repair_refuted :
   exists w sc k t d,
-    NoDup (map fst (leaves [] sc)) /\ In (k, (t, d)) (leaves [] sc) /\ is_flagkey k = false /\ unshadowed w k /\
-    spec_val fixed w k d = VStr (str_of "fromfile") /\
-    final_val (mkV false false false) w sc k = Some (VStr (str_of "flagdefault")) /\
+    NoDup (map fst (leaves [] sc)) /\ In (k, (t, d)) (leaves [] sc) /\ is_flagkey expected k = false /\ unshadowed expected w k /\
+    spec_val expected w k d = VStr (str_of "fromfile") /\
+    final_val before_repair1 w sc k = Some (VStr (str_of "flagdefault")) /\
     final_val original w sc k = Some (VStr (str_of "flagdefault")) /\
-    final_val fixed w sc k = Some (VStr (str_of "fromfile")).
+    final_val expected w sc k = Some (VStr (str_of "fromfile")).
 Proof.
   exists d23_world, d23_schema, (str_of "name"), TStr, (AStr []).
   split; [repeat constructor; simpl; tauto|]. split; [left; reflexivity|]. split; [reflexivity|].
@@ -87,10 +110,10 @@ Definition strip_schema : schema := Node VOwnOnly [(str_of "Title", str_of "titl
 
 Theorem load_precedence_prefix_strip_refuted :
   exists w sc k t d,
-    NoDup (map fst (leaves [] sc)) /\ In (k, (t, d)) (leaves [] sc) /\ is_flagkey k = false /\ unshadowed w k /\
-    spec_val fixed w k d = VStr (str_of "fromflag") /\
-    final_val (mkV true true false) w sc k = Some (VStr (str_of "dflt")) /\
-    final_val fixed w sc k = Some (VStr (str_of "fromflag")).
+    NoDup (map fst (leaves [] sc)) /\ In (k, (t, d)) (leaves [] sc) /\ is_flagkey expected k = false /\ unshadowed expected w k /\
+    spec_val expected w k d = VStr (str_of "fromflag") /\
+    final_val before_repair2 w sc k = Some (VStr (str_of "dflt")) /\
+    final_val expected w sc k = Some (VStr (str_of "fromflag")).
 Proof.
   exists strip_world, strip_schema, (str_of "title"), TStr, (AStr (str_of "dflt")).
   split; [repeat constructor; simpl; tauto|]. split; [left; reflexivity|]. split; [reflexivity|].
@@ -110,13 +133,13 @@ Definition shadow_schema : schema :=
 
 Theorem load_precedence_env_shadow_refuted :
   exists w sc k t d,
-    NoDup (map fst (leaves [] sc)) /\ In (k, (t, d)) (leaves [] sc) /\ is_flagkey k = false /\
+    NoDup (map fst (leaves [] sc)) /\ In (k, (t, d)) (leaves [] sc) /\ is_flagkey gen_facts k = false /\
     (* the only variable set is the variable of another field of the structure, and no two fields share a variable *)
-    map fst (w_environ w) = [autoenv (w_prefix w) (str_of "srv.cfg")] /\ In (str_of "srv.cfg") (map fst (leaves [] sc)) /\
-    NoDup (honoured (w_prefix w) sc) /\
-    spec_val fixed w k d = VNum 7 /\                (* the file's value is what the property demands *)
-    final_val fixed w sc k = None /\                 (* … but the field receives nothing, not even its default *)
-    load fixed w sc = Loaded [AStr (str_of "x"); ANum 0].
+    map fst (w_environ w) = [autoenv gen_facts (w_prefix w) (str_of "srv.cfg")] /\ In (str_of "srv.cfg") (map fst (leaves [] sc)) /\
+    NoDup (honoured gen_facts (w_prefix w) sc) /\
+    spec_val gen_facts w k d = VNum 7 /\                (* the file's value is what the property demands *)
+    final_val gen_facts w sc k = None /\                 (* … but the field receives nothing, not even its default *)
+    load gen_facts w sc = Loaded [AStr (str_of "x"); ANum 0].
 Proof.
   exists shadow_world, shadow_schema, (str_of "srv_cfg.port"), TInt, (ANum 5).
   split; [vm_compute; repeat constructor; simpl; intuition discriminate|].
@@ -133,36 +156,37 @@ Print Assumptions load_precedence_env_shadow_refuted.
    and in order, the names loading consults (mergeWithEnvPrefix + the "." -> "_" key replacer on the lower-cased key). *)
 Theorem env_names_agree : forall prefix m fs,
   nodot prefix = true -> tags_ok (Node m fs) ->
-  reported fixed prefix (Node m fs) = honoured prefix (Node m fs).
-Proof. exact env_names_agree_l. Qed.
+  reported gen_facts prefix (Node m fs) = honoured gen_facts prefix (Node m fs).
+Proof. intros. apply env_names_agree_l; auto using gen_spelling_facts, gen_names_facts. Qed.
 Print Assumptions env_names_agree.
 
 (* before the third repair the reported names carried a leading "_" when the prefix is empty *)
 Theorem env_names_empty_prefix_refuted :
   exists sc, tags_ok sc /\
-    reported original [] sc = [str_of "_NAME"] /\ honoured [] sc = [str_of "NAME"] /\ reported fixed [] sc = [str_of "NAME"].
+    reported before_repair3 [] sc = [str_of "_NAME"] /\ honoured before_repair3 [] sc = [str_of "NAME"] /\
+    reported gen_facts [] sc = [str_of "NAME"].
 Proof. exists d23_schema. repeat split; vm_compute; reflexivity. Qed.
 Print Assumptions env_names_empty_prefix_refuted.
 
 (* ---- validation ---- *)
 (* Loading succeeds only if no required field of a validated level is empty … *)
 Theorem load_validates : forall w sc vs,
-  load fixed w sc = Loaded vs ->
-  unmarshal fixed w sc = Some vs /\
+  load gen_facts w sc = Loaded vs ->
+  unmarshal gen_facts w sc = Some vs /\
   forall tr, ~ offender (combine (map fst (leaves [] sc)) vs) [] sc tr.
-Proof. exact load_validates_l. Qed.
+Proof. exact (load_validates_l gen_facts gen_valid_facts). Qed.
 Print Assumptions load_validates.
 
 (* … and otherwise returns the invalid error, whose tree path names an offending field: the Go field names of the
    enclosing structures followed by the tag of a required leaf that is empty. *)
 Theorem load_invalid_names_offender : forall w sc vs tr ms,
-  load fixed w sc = Invalid vs tr ms ->
-  unmarshal fixed w sc = Some vs /\ offender (combine (map fst (leaves [] sc)) vs) [] sc tr.
-Proof. exact load_invalid_names_offender_l. Qed.
+  load gen_facts w sc = Invalid vs tr ms ->
+  unmarshal gen_facts w sc = Some vs /\ offender (combine (map fst (leaves [] sc)) vs) [] sc tr.
+Proof. exact (load_invalid_names_offender_l gen_facts gen_valid_facts). Qed.
 Print Assumptions load_invalid_names_offender.
 
 (* ---- non-vacuity ---- *)
-Example c15_unshadowed_satisfiable : unshadowed d23_world (str_of "name").
+Example c15_unshadowed_satisfiable : unshadowed gen_facts d23_world (str_of "name").
 Proof. constructor; vm_compute; reflexivity. Qed.
 
 Definition demo_world : world :=
@@ -180,11 +204,11 @@ Definition demo_schema : schema :=
                                   (str_of "User", str_of "user", Leaf TStr (AStr []) true);
                                   (str_of "Password", str_of "password", Leaf TStr (AStr []) true)])].
 Example c15_demo_load :
-  load fixed demo_world demo_schema =
+  load gen_facts demo_world demo_schema =
   Invalid [AStr (str_of "s"); AStr (str_of "host2"); ANum 9090; AStr (str_of "flagdb"); AStr (str_of "a user"); AStr []]
           [str_of "TestConfig2"; str_of "password"] (str_of "TEST_DUMMY_CONFIG").
 Proof. vm_compute. reflexivity. Qed.
 Example c15_demo_names :
-  reported fixed (str_of "Test") demo_schema = honoured (str_of "Test") demo_schema /\
-  In (str_of "TEST_DUMMY_CONFIG_PASSWORD") (reported fixed (str_of "Test") demo_schema).
+  reported gen_facts (str_of "Test") demo_schema = honoured gen_facts (str_of "Test") demo_schema /\
+  In (str_of "TEST_DUMMY_CONFIG_PASSWORD") (reported gen_facts (str_of "Test") demo_schema).
 Proof. split; vm_compute; [reflexivity|tauto]. Qed.
